@@ -6,7 +6,9 @@
 ;;          {"e":"Begin","a":i,"b":j}                (bg=1 only: before every hash / comparison; j=0 for hash)
 ;;          {"e":"Inst","i":inst,"t":term,"r":route,"fresh":0|1,"err":0|1,"sz":bytes,"bw":[bytes..],"h":["hash",...]}
 ;;             sz = object-size of the value, bw = object-size of the first bignums met while walking it
-;;          {"e":"Obs","a":i,"b":j,"eq":0|1,"eqv":0|1,"equal":0|1,"pequal":0|1|-1,"err":0|1}
+;;          {"e":"Obs","a":i,"b":j,"eq":0|1,"eqv":0|1,"equal":0|1,"pequal":0|1|-1,"mem":0|1|-1,"ass":0|1|-1,"err":0|1}
+;;             equal = (scheme base) equal?, pequal = the primitive equal? of (chibi), mem = (member a (list b)),
+;;             ass = (assoc a (list (cons b 0))) with their default predicate; -1 = not asked (cyclic batch)
 ;;          {"e":"EndBatch","b":id}
 
 ;; ---- helpers available to route expressions
@@ -20,11 +22,23 @@
 (define (idf x) x)
 (define (nest n leaf)                   ; ((((leaf) 0) 0) ...) n levels, fresh pairs
   (let lp ((i 0) (x leaf)) (if (= i n) x (lp (+ i 1) (list x 0)))))
+(define (nest1 n leaf)                  ; like nest with (list x 1)
+  (let lp ((i 0) (x leaf)) (if (= i n) x (lp (+ i 1) (list x 1)))))
 (define (nestv n leaf)
   (let lp ((i 0) (x leaf)) (if (= i n) x (lp (+ i 1) (vector 0 x)))))
 (define (iota* n from)                  ; (from from+1 ... from+n-1)
   (let lp ((i (- n 1)) (a '())) (if (< i 0) a (lp (- i 1) (cons (+ from i) a)))))
 (define (from-port str) (read (open-input-string str)))
+;; deeply nested data, built iteratively (no recursion in the builder): the leaf wrapped k times in
+;;   deep-lt : (list x 1)  fresh two-element list      deep-vf : (vector x 1.5) with a fresh flonum
+;;   deep-car: (list x)
+(define flo-one 1.0)
+(define (deep-lt k leaf) (let lp ((i 0) (x leaf)) (if (= i k) x (lp (+ i 1) (list x 1)))))
+(define (deep-lt2 k leaf) (do ((i 0 (+ i 1)) (x leaf (cons x (cons 1 '())))) ((= i k) x)))
+(define (deep-vf k leaf) (let lp ((i 0) (x leaf)) (if (= i k) x (lp (+ i 1) (vector x (+ flo-one 0.5))))))
+(define (deep-vf2 k leaf) (do ((i 0 (+ i 1)) (x leaf (let ((v (make-vector 2 (* flo-one 1.5)))) (vector-set! v 0 x) v))) ((= i k) x)))
+(define (deep-car k leaf) (let lp ((i 0) (x leaf)) (if (= i k) x (lp (+ i 1) (list x)))))
+(define (deep-car2 k leaf) (do ((i 0 (+ i 1)) (x leaf (cons x '()))) ((= i k) x)))
 
 ;; ---- output
 (define (out . xs) (for-each (lambda (x) (display x)) xs))
@@ -80,12 +94,14 @@
 (define (observe bg a b)
   (if (= bg 1) (begin (out "{\"e\":\"Begin\",\"a\":" (inst-id a) ",\"b\":" (inst-id b) "}\n") (flush)))
   (let* ((x (inst-val a)) (y (inst-val b)) (ok #t)
-         (r (guard (e (#t (set! ok #f) (list #f #f #f -1)))
+         (r (guard (e (#t (set! ok #f) (list #f #f #f -1 -1 -1)))
               (list (eq? x y) (eqv? x y) (equal? x y)
-                    (if (= bg 1) -1 (b01 (prim:equal? x y)))))))
+                    (if (= bg 1) -1 (b01 (prim:equal? x y)))
+                    (if (= bg 1) -1 (b01 (member x (list y))))
+                    (if (= bg 1) -1 (b01 (assoc x (list (cons y 0)))))))))
     (out "{\"e\":\"Obs\",\"a\":" (inst-id a) ",\"b\":" (inst-id b)
          ",\"eq\":" (b01 (car r)) ",\"eqv\":" (b01 (cadr r)) ",\"equal\":" (b01 (caddr r))
-         ",\"pequal\":" (cadddr r) ",\"err\":" (if ok 0 1) "}\n")))
+         ",\"pequal\":" (cadddr r) ",\"mem\":" (list-ref r 4) ",\"ass\":" (list-ref r 5) ",\"err\":" (if ok 0 1) "}\n")))
 
 (define (run-batch b bg insts)
   (out "{\"e\":\"Batch\",\"b\":" b ",\"n\":" (length insts) ",\"bg\":" bg "}\n")
